@@ -30,12 +30,17 @@ DECIDED = [
     "R-C04-ROUTE (rounding): the due time of a retry is not moved earlier by its conversion for the broker (C05's rounding lattice and the whole-duration rule reused)",
     "R-C04-STEP (stored): Redis requeue overwrites the stored parameters (HSET), so the incremented counter is what the next delivery sees",
     "R-C04-STEP (round 5): RabbitMQ terminal operations pop and use the delivery tag of key.id_; requeue acks the failed delivery before it publishes the retry copy (same id: the copy's delivery would overwrite the tag)",
+    "R-C04-GUARD / R-C04-ORDER (round 6): a refused eager retry stays the actor's failure (retry() does not nack on its own); report_to_broker is not shielded from the runner's cancel + reject",
+    "R-C04-AWAITED: in the files this property is anchored in, no bare statement calls a coroutine function (the operation would never run)",
 ]
 NOT_DECIDED = ["delivery time versus the policy value as a measured quantity", "user-supplied retry policies"]
 ASSUMPTIONS = ["attempt counting is by induction over deliveries: each delivery applies the transfer function exactly once (C02)"]
 
 
 def run(ctx: Ctx) -> None:
+    from .shared import every_operation_awaited
+
+    every_operation_awaited(ctx, "R-C04-AWAITED")  # in the files this property is anchored in, no asynchronous operation is created and dropped
     lt = check_ladder(ctx, "R-C04-GUARD", rows=lambda s, b, d, c: not s)
     check_ladder(ctx, "R-C04-ORDER", rows=lambda s, b, d, c: (not s and b == "lt" and (d or c)) or s)
     check_ladder_arguments(ctx, "R-C04-STEP", lt, kinds=("retry",))
@@ -46,6 +51,12 @@ def run(ctx: Ctx) -> None:
     from .brokers import redis_op_fields
 
     redis_op_fields(ctx, "R-C04-STEP")  # the parameters with the incremented counter are really stored on requeue (HSET overwrites)
+    from .shared import no_shield
+
+    no_shield(ctx, "R-C04-ORDER", ("repid/_processor.py", "repid/_runner.py", "repid/worker.py", "repid/message.py", "repid/dependencies/message_dependency.py", "repid/connections/redis/consumer.py", "repid/connections/redis/message_broker.py", "repid/connections/rabbitmq/consumer.py", "repid/connections/rabbitmq/message_broker.py", "repid/connections/in_memory/consumer.py", "repid/connections/in_memory/message_broker.py"), "a shielded report_to_broker survives the runner's cancel + reject: the retry copy is enqueued next to the returned original - two live copies, more than N+1 executions")
+    from .shared import eager_action_rules
+
+    eager_action_rules(ctx, "R-C04-GUARD")  # a refused eager retry is the actor's failure: the ladder (nack, or reschedule for a recurring job) decides, not a nack issued by retry() itself
     from .brokers import rabbit_rules
 
     rabbit_rules(ctx, rule_t="R-C04-STEP", rule_a="R-C04-STEP", atomic_finding=False)  # the retry copy (counter k+1) is published after the failed delivery's tag was used: the ack never hits the new copy
